@@ -23,7 +23,12 @@ RULE = ('a scene = non-square image (6..40 x 6..60) + zenithal header (5 project
         'scene is evaluated with several regions: circle, convex polygon, the single cell under an end pixel of an '
         'island (straddling by exactly one pixel), the cells under one island only (foreign island inside another '
         'island\'s bounding box but the other island outside the region), all cells of the image except those under '
-        'one island, whole image, empty.  An evaluation = one restricted find_islands call judged against the '
+        'one island, whole image, empty.  Header conventions for the same sky: CRVAL1 in [0,360], negative (RA 358 as '
+        '-2) and above 360, LONPOLE spelled out, CD or CDELT - at find_islands, find_sources_in_image and CLI level.  '
+        'aegean command line option interactions (in-process main(argv)): --region B alone, --autoload alone with / '
+        'without sibling img.mim (a DIFFERENT region A) and img_bkg/img_rms.fits, both options in either order; expected '
+        '= unrestricted run filtered by the region the user named, else the sibling region under --autoload, else '
+        'unfiltered.  An evaluation = one restricted find_islands call judged against the '
         'filtered unrestricted call (or one restricted/unrestricted pair of find_sources_in_image runs); non-trivial '
         '= at least one unrestricted island with a determined keep/drop status; distinct = distinct (image, header, '
         'region cell set) hashes within a case, cases with equal hash counted once')
@@ -42,7 +47,14 @@ MIN_REACH = {'source_finder:find_islands': 1, 'regions:Region.sky_within': 1,
 MIN_COUNTERS = {'restricted_calls_judged': 1000, 'islands_kept': 300, 'islands_dropped': 300, 'islands_straddling_edge': 100,
                 'evals_with_kept_and_dropped': 100, 'dropped_island_with_foreign_inside_pixel_in_its_box': 30,
                 'kept_by_exactly_one_pixel': 30, 'elongated_islands_judged': 300, 'whole_image_region_evals': 20,
-                'finder_pairs': 8, 'finder_components_compared': 20, 'finder_islands_dropped': 5, 'finder_islands_kept': 5}
+                'finder_pairs': 8, 'finder_components_compared': 20, 'finder_islands_dropped': 5, 'finder_islands_kept': 5,
+                'restricted_calls_crval1_negative': 1000, 'islands_kept_crval1_negative': 1000,
+                'restricted_calls_crval1_above_360': 300, 'islands_kept_crval1_above_360': 300,
+                'restricted_calls_lonpole_explicit': 500, 'restricted_calls_cd_matrix': 500,
+                'finder_pairs_crval1_negative': 3, 'cli_runs_judged': 60, 'cli_islands_kept': 100, 'cli_islands_dropped': 100,
+                'cli_components_compared': 100, 'cli_autoload_and_region_with_different_sibling_region': 12,
+                'cli_scenario_region_only': 8, 'cli_scenario_autoload_sibling_mim': 8,
+                'cli_scenario_autoload_then_region_sibling_mim': 8, 'cli_scenario_region_then_autoload_sibling_mim': 8}
 
 E_DEG = 1e-7
 BATCHES_PER_JOB = 1     # importing AegeanTools + oracle self-checks cost ~8 s per worker process
@@ -57,6 +69,16 @@ def _selfcheck():
     import healpy as hp
     wcs_zenithal.selfcheck()
     floodfill.selfcheck()
+    from astropy.wcs import WCS
+    for proj in ('SIN', 'ZEA'):
+        for crv in (-2.0, -359.5, 362.0, 719.0):
+            h = wcs_zenithal.make_header(proj, (crv, -33.0), (7.3, 11.1), (-0.02, 0.02), (20, 30))
+            h['LONPOLE'] = 180.0
+            ii, jj = np.indices((20, 30))
+            ra, dec = wcs_zenithal.ZenithalWCS(h).index2sky(ii.ravel(), jj.ravel())
+            sky = WCS(h, naxis=2).wcs_pix2world(np.column_stack([jj.ravel(), ii.ravel()]), 0)
+            if not np.max(sphere.sep(sky[:, 0], sky[:, 1], ra, dec)) < 1e-10:
+                raise RuntimeError('oracle fault: independent WCS disagrees with astropy.wcs for CRVAL1=%g' % crv)
     # own nested arithmetic against healpy: the centre of every k-level child of p falls in p at the parent depth
     rng = np.random.default_rng(7)
     for d, k in ((3, 1), (5, 3), (9, 2), (11, 2)):
@@ -239,8 +261,17 @@ def make_scene(rng):
     if rng.random() < 0.3:
         crpix = (float(round(crpix[0])), float(round(crpix[1])))
     sgn = [(-1, 1), (-1, 1), (1, 1), (-1, -1), (1, -1)][int(rng.integers(0, 5))]
+    # the same sky written in other header conventions: reference longitude negative (RA 358 as -2) or above 360,
+    # LONPOLE spelled out
+    conv = str(rng.choice(['plain', 'plain', 'plain', 'negative', 'negative', 'above360']))
+    if conv == 'negative' and ra0 > 0:
+        ra0 -= 360.0
+    elif conv == 'above360':
+        ra0 += 360.0
     hdr = wcs_zenithal.make_header(proj, (ra0, dec0), crpix, (sgn[0] * pixscale, sgn[1] * pixscale), (rows, cols),
                                    beam=(3 * pixscale, 2 * pixscale, 20.0), use_cd=bool(rng.random() < 0.3))
+    if rng.random() < 0.25:
+        hdr['LONPOLE'] = 180.0
     level = np.zeros((rows, cols))
     nshape = int(rng.integers(2, 9))
     for _ in range(nshape):
@@ -354,6 +385,8 @@ def cases(seed, tier):
     if tier == 'thorough':
         for k in range(24):
             out.append({'kind': 'finder', 'via': 'cli', 'seed': [seed, 'cli', k]})
+    for k in range(16 if tier == 'quick' else 64):
+        out.append({'kind': 'cli_options', 'seed': [seed, 'cli_options', k]})
     return out
 
 
@@ -372,6 +405,8 @@ def run(case):
             eval_scene(o, rng, scene, kinds, distinct)
     elif case['kind'] == 'finder':
         finder_case(o, case, distinct)
+    elif case['kind'] == 'cli_options':
+        cli_options_case(o, case, distinct)
     o.n_nontrivial = len(distinct)
     return o.result()
 
@@ -387,8 +422,15 @@ def targeted_scenes():
                 k += 1
                 depth = 11
                 ps = 58.6323 / 2 ** depth / ratio
-                hdr = wcs_zenithal.make_header(proj, ((10.0 + 35 * k) % 360.0, -65.0 + (9 * k) % 120), (cols / 2.0, rows / 2.0),
+                ra_ref = (10.0 + 35 * k) % 360.0
+                if k % 3 == 1:
+                    ra_ref -= 360.0          # same sky, CRVAL1 negative
+                elif k % 9 == 2:
+                    ra_ref += 360.0          # same sky, CRVAL1 above 360
+                hdr = wcs_zenithal.make_header(proj, (ra_ref, -65.0 + (9 * k) % 120), (cols / 2.0, rows / 2.0),
                                                (-ps, ps), (rows, cols), beam=(3 * ps, 2 * ps, 0.0))
+                if k % 4 == 0:
+                    hdr['LONPOLE'] = 180.0
                 lv = np.zeros((rows, cols))
                 if cols > rows:
                     lv[2, 1:cols - 1] = F
@@ -457,6 +499,13 @@ def eval_scene(o, rng, scene, kinds, distinct):
             continue
         o.n_eval += 1
         o.count('restricted_calls_judged')
+        crv = float(hdr['CRVAL1'])
+        hconv = 'crval1_negative' if crv < 0 else ('crval1_above_360' if crv > 360 else 'crval1_0_360')
+        o.count('restricted_calls_' + hconv)
+        if 'LONPOLE' in hdr:
+            o.count('restricted_calls_lonpole_explicit')
+        if 'CD1_1' in hdr:
+            o.count('restricted_calls_cd_matrix')
         # the region must not have been changed as a set by being queried
         if not np.array_equal(region_cells(copy_pixeldict(reg), reg.maxdepth), cells):
             raise RuntimeError('harness: the region changed while being queried')
@@ -485,6 +534,7 @@ def eval_scene(o, rng, scene, kinds, distinct):
             if st == 'keep':
                 n_keep += 1
                 o.count('islands_kept')
+                o.count('islands_kept_' + hconv)
                 if n_in < len(p):
                     o.count('islands_straddling_edge')
                 if n_in == 1 and n_unj == 0 and len(p) > 1:
@@ -568,7 +618,7 @@ class _Row:
         self.__dict__.update(d)
 
 
-def _run_cli(sf_mod, fn, sigma, inner, outer, maskfile, outbase):
+def _run_cli(sf_mod, fn, sigma, inner, outer, maskfile, outbase, extra=(), region_first=False):
     import csv
     from AegeanTools.CLI import aegean as cli
     calls = []
@@ -583,8 +633,12 @@ def _run_cli(sf_mod, fn, sigma, inner, outer, maskfile, outbase):
     sf_mod.SourceFinder._fit_island = spy
     argv = [fn, '--cores', '1', '--forcerms', repr(sigma), '--forcebkg', '0', '--seedclip', repr(inner),
             '--floodclip', repr(outer), '--negative', '--table', outbase + '.csv']
-    if maskfile:
-        argv += ['--region', maskfile]
+    if maskfile and region_first:
+        argv = argv + ['--region', maskfile] + list(extra)
+    elif maskfile:
+        argv = argv + list(extra) + ['--region', maskfile]
+    else:
+        argv = argv + list(extra)
     try:
         rc = cli.main(argv)
     finally:
@@ -598,6 +652,60 @@ def _run_cli(sf_mod, fn, sigma, inner, outer, maskfile, outbase):
                 d['source'] = int(d['source'])
                 rows.append(_Row(d))
     return calls, rows, rc
+
+
+def compare_catalogues(o, wit, mem, ucalls, usrcs, rcalls, rsrcs, names, prefix='finder_'):
+    """restricted run (rcalls, rsrcs) against the unrestricted run (ucalls, usrcs) filtered by the membership map `mem`
+    (None = no region expected to act: every island is to be kept, nothing may change); -> (kept, dropped)"""
+    ucomp = {}
+    for num, p in ucalls:
+        ucomp[p] = sorted([s for s in usrcs if int(s.island) == num], key=lambda s: int(s.source))
+    rcomp = {}
+    for num, p in rcalls:
+        rcomp[p] = sorted([s for s in rsrcs if int(s.island) == num], key=lambda s: int(s.source))
+    rnums = set(c[0] for c in rcalls)
+    for s in rsrcs:
+        if int(s.island) not in rnums:
+            o.violate('component_of_unknown_island', dict(wit, island=int(s.island)))
+    whole = mem is None or bool(mem.judged.all() and mem.inside.all())
+    if whole:
+        o.count(prefix + 'whole_image_region')
+    for p in rcomp:
+        if p not in ucomp:
+            o.violate('restricted_island_not_in_unrestricted', dict(wit, island=sorted(p)[:60]))
+    nk = nd = 0
+    for p, comps in ucomp.items():
+        st, n_in, n_unj = ('keep', len(p), 0) if mem is None else mem.island_status(p)
+        if st is None:
+            o.count(prefix + 'islands_undetermined')
+            continue
+        if st == 'keep':
+            nk += 1
+            o.count(prefix + 'islands_kept')
+            if n_in < len(p):
+                o.count(prefix + 'islands_straddling_edge')
+            if p not in rcomp:
+                o.violate('lost_island_with_pixel_inside_region' if not whole else 'whole_image_region_changes_result',
+                          dict(wit, island=sorted(p)[:60], pixels_inside=n_in, components_lost=len(comps)))
+                continue
+            got = rcomp[p]
+            if len(got) != len(comps):
+                o.violate('component_count_differs', dict(wit, island=sorted(p)[:60], unrestricted=len(comps), restricted=len(got)))
+                continue
+            for a, b in zip(comps, got):
+                o.count(prefix + 'components_compared')
+                diff = _src_diff(a, b, names)
+                if diff:
+                    o.violate('component_attribute_differs',
+                              dict(wit, attributes=diff, unrestricted=[str(getattr(a, n)) for n in diff],
+                                   restricted=[str(getattr(b, n)) for n in diff]))
+        else:
+            nd += 1
+            o.count(prefix + 'islands_dropped')
+            if p in rcomp:
+                o.violate('kept_island_without_pixel_inside_region',
+                          dict(wit, island=sorted(p)[:60], components=len(rcomp[p])))
+    return nk, nd
 
 
 def finder_case(o, case, distinct):
@@ -615,7 +723,8 @@ def finder_case(o, case, distinct):
     pix = cell / ratio
     beam = (float(rng.uniform(2.6, 3.6)) * pix, float(rng.uniform(1.9, 2.4)) * pix, float(rng.uniform(-90, 90)))
     hdr = wcs_zenithal.make_header(proj=str(rng.choice(['SIN', 'TAN', 'ZEA', 'ARC', 'STG'])),
-                                   crval=(float(rng.choice([rng.uniform(0, 360), 0.01, 359.98])), float(rng.uniform(-70, 70))),
+                                   crval=(float(rng.choice([rng.uniform(0, 360), 0.01, 359.98, -1.5, rng.uniform(-360, 0),
+                                                            rng.uniform(360, 720)])), float(rng.uniform(-70, 70))),
                                    crpix=(float(rng.uniform(0, cols)), float(rng.uniform(0, rows))), cdelt=(-pix, pix),
                                    shape=(rows, cols), beam=beam)
     z = wcs_zenithal.ZenithalWCS(hdr)
@@ -684,58 +793,139 @@ def finder_case(o, case, distinct):
     o.n_eval += 1
     o.count('finder_pairs')
     o.count('finder_via_' + via)
+    o.count('finder_pairs_crval1_negative' if hdr['CRVAL1'] < 0 else ('finder_pairs_crval1_above_360' if hdr['CRVAL1'] > 360
+                                                                      else 'finder_pairs_crval1_0_360'))
     o.count('finder_region_' + kind)
     wit = {'case': case, 'region_kind': kind, 'depth': depth, 'shape': [rows, cols], 'inner': inner, 'outer': outer}
-    ucomp = {}
-    for num, p in ucalls:
-        ucomp[p] = sorted([s for s in usrcs if int(s.island) == num], key=lambda s: int(s.source))
-    rcomp = {}
-    for num, p in rcalls:
-        rcomp[p] = sorted([s for s in rsrcs if int(s.island) == num], key=lambda s: int(s.source))
-    rnums = set(c[0] for c in rcalls)
-    for s in rsrcs:
-        if int(s.island) not in rnums:
-            o.violate('component_of_unknown_island', dict(wit, island=int(s.island)))
-    whole = bool(mem.judged.all() and mem.inside.all())
-    if whole:
-        o.count('finder_whole_image_region')
-    for p in rcomp:
-        if p not in ucomp:
-            o.violate('restricted_island_not_in_unrestricted', dict(wit, island=sorted(p)[:60]))
-    nk = nd = 0
-    for p, comps in ucomp.items():
-        st, n_in, n_unj = mem.island_status(p)
-        if st is None:
-            o.count('finder_islands_undetermined')
-            continue
-        if st == 'keep':
-            nk += 1
-            o.count('finder_islands_kept')
-            if n_in < len(p):
-                o.count('finder_islands_straddling_edge')
-            if p not in rcomp:
-                o.violate('lost_island_with_pixel_inside_region' if not whole else 'whole_image_region_changes_result',
-                          dict(wit, island=sorted(p)[:60], pixels_inside=n_in, components_lost=len(comps)))
-                continue
-            got = rcomp[p]
-            if len(got) != len(comps):
-                o.violate('component_count_differs', dict(wit, island=sorted(p)[:60], unrestricted=len(comps), restricted=len(got)))
-                continue
-            for a, b in zip(comps, got):
-                o.count('finder_components_compared')
-                diff = _src_diff(a, b, names)
-                if diff:
-                    o.violate('component_attribute_differs',
-                              dict(wit, attributes=diff, unrestricted=[str(getattr(a, n)) for n in diff],
-                                   restricted=[str(getattr(b, n)) for n in diff]))
-        else:
-            nd += 1
-            o.count('finder_islands_dropped')
-            if p in rcomp:
-                o.violate('kept_island_without_pixel_inside_region',
-                          dict(wit, island=sorted(p)[:60], components=len(rcomp[p])))
+    nk, nd = compare_catalogues(o, wit, mem, ucalls, usrcs, rcalls, rsrcs, names)
     if nk + nd:
         distinct.add(hash((data32.tobytes(), cells.tobytes())))
     o.sample = {'shape': [rows, cols], 'depth': depth, 'cell_over_pixel': round(ratio, 3), 'region_kind': kind, 'via': via,
                 'unrestricted_islands': len(ucalls), 'restricted_islands': len(rcalls),
                 'unrestricted_components': len(usrcs), 'restricted_components': len(rsrcs), 'kept': nk, 'dropped': nd}
+
+
+# ----------------------------------------------------------------------------- the aegean command line: option interactions
+CLI_SCENARIOS = (
+    # name, sibling files present, --autoload, --region B, region argument before --autoload, region expected to act
+    ('region_only', (), False, True, False, 'B'),
+    ('autoload_no_siblings', (), True, False, False, None),
+    ('autoload_sibling_mim', ('mim',), True, False, False, 'A'),
+    ('autoload_then_region_sibling_mim', ('mim',), True, True, False, 'B'),
+    ('region_then_autoload_sibling_mim', ('mim',), True, True, True, 'B'),
+    ('autoload_sibling_bkg_rms', ('bkg', 'rms'), True, False, False, None),
+    ('autoload_region_sibling_bkg_rms', ('bkg', 'rms'), True, True, False, 'B'),
+    ('autoload_sibling_all', ('mim', 'bkg', 'rms'), True, False, False, 'A'),
+    ('autoload_region_sibling_all', ('mim', 'bkg', 'rms'), True, True, False, 'B'),
+    ('region_only_sibling_mim_ignored', ('mim',), False, True, False, 'B'),
+    ('no_options_sibling_mim_ignored', ('mim',), False, False, False, None),
+)
+
+
+def cli_options_case(o, case, distinct):
+    """`aegean img.fits [--autoload] [--region B.mim]` with and without sibling img.mim (a DIFFERENT region A),
+    img_bkg.fits, img_rms.fits next to the image.  Expected: the unrestricted run filtered by island membership in the
+    region the user named (--region), else in the sibling region when --autoload is given, else unfiltered."""
+    from astropy.io import fits
+    from AegeanTools import source_finder as sf_mod
+    from AegeanTools.models import ComponentSource
+    from aegmon.refs import render
+    rng = rng_for(*case['seed'])
+    rows, cols = int(rng.integers(48, 72)), int(rng.integers(72, 110))
+    depth = int(rng.integers(11, 14))
+    ratio = float(10 ** rng.uniform(np.log10(0.5), np.log10(3.0)))
+    pix = 58.6323 / 2 ** depth / ratio
+    beam = (float(rng.uniform(2.6, 3.4)) * pix, float(rng.uniform(1.9, 2.4)) * pix, float(rng.uniform(-90, 90)))
+    hdr = wcs_zenithal.make_header(proj=str(rng.choice(['SIN', 'TAN', 'ZEA'])),
+                                   crval=(float(rng.choice([rng.uniform(0, 360), -2.0, 359.9])), float(rng.uniform(-60, 60))),
+                                   crpix=(cols / 2.0, rows / 2.0), cdelt=(-pix, pix), shape=(rows, cols), beam=beam)
+    z = wcs_zenithal.ZenithalWCS(hdr)
+    sigma = 1.0
+    srcs = []
+    for _ in range(int(rng.integers(7, 12))):
+        ra, dec = z.index2sky(rng.uniform(3, rows - 4), rng.uniform(3, cols - 4))
+        srcs.append({'ra': float(ra), 'dec': float(dec), 'peak': float(sigma * rng.uniform(8, 40)),
+                     'a': beam[0] * 3600 * float(rng.choice([1.0, 1.0, 2.5])), 'b': beam[1] * 3600,
+                     'pa': float(rng.uniform(-90, 90))})
+    img = render.render(z, (rows, cols), srcs)
+    img += render.correlated_noise(rng, (rows, cols), sigma, (beam[0] / pix / 2.355, beam[1] / pix / 2.355), beam[2])
+    data32 = img.astype(np.float32)
+    inner, outer = 5.0, 4.0
+    names = [n for n in ComponentSource.names]
+    d = scratch_dir()
+    try:
+        fn = os.path.join(d, 'img.fits')
+        fits.PrimaryHDU(data=data32, header=hdr).writeto(fn)
+        os.makedirs(os.path.join(d, 'out'))
+        try:
+            ucalls, usrcs, rc = _run_cli(sf_mod, fn, sigma, inner, outer, None, os.path.join(d, 'out', 'unres'))
+        except Exception:
+            o.violate('raises', {'where': 'aegean, no region', 'case': case, 'traceback': traceback.format_exc()[-800:]})
+            return
+        if usrcs:
+            names = [n for n in names if hasattr(usrcs[0], n)]
+        upix = [c[1] for c in ucalls]
+        scene = {'rows': rows, 'cols': cols, 'pixscale': pix}
+
+        def make(tag):
+            kind = str(rng.choice(['circle', 'circle', 'poly', 'cells_of_island', 'cells_of_island', 'end_pixel_cell']))
+            reg = build_region(rng, kind, scene, z, upix, depth)
+            if reg is None:
+                kind = 'circle'
+                reg = build_region(rng, kind, scene, z, upix, depth)
+            cells = region_cells(copy_pixeldict(reg), reg.maxdepth)
+            mem = Membership(z, (rows, cols), reg.maxdepth, cells)
+            kept = frozenset(p for p in upix if mem.island_status(p)[0] == 'keep')
+            return reg, mem, kept, kind, cells
+
+        # two regions that keep different sets of islands (else the scenarios cannot tell them apart)
+        A = make('A')
+        B = make('B')
+        for _ in range(8):
+            if A[2] != B[2] and B[2]:
+                break
+            B = make('B')
+        differ = bool(A[2] != B[2])
+        mems = {'A': A[1], 'B': B[1], None: None}
+        fileB = os.path.join(d, 'B.mim')
+        B[0].save(fileB)
+        sib = {'mim': os.path.join(d, 'img.mim'), 'bkg': os.path.join(d, 'img_bkg.fits'), 'rms': os.path.join(d, 'img_rms.fits')}
+        chosen = [0, 2, 3, 4] + [int(k) for k in rng.choice(np.arange(len(CLI_SCENARIOS)), 3, replace=False)]
+        for si in sorted(set(chosen)):
+            name, siblings, autoload, use_b, region_first, acting = CLI_SCENARIOS[si]
+            for k, path in sib.items():
+                if os.path.exists(path):
+                    os.remove(path)
+            if 'mim' in siblings:
+                A[0].save(sib['mim'])
+            if 'bkg' in siblings:
+                fits.PrimaryHDU(data=np.zeros((rows, cols), dtype=np.float32), header=hdr).writeto(sib['bkg'])
+            if 'rms' in siblings:
+                fits.PrimaryHDU(data=np.full((rows, cols), sigma, dtype=np.float32), header=hdr).writeto(sib['rms'])
+            wit = {'case': case, 'scenario': name, 'siblings': list(siblings), 'autoload': autoload,
+                   'region_option': 'B.mim' if use_b else None, 'region_expected_to_act': acting,
+                   'region_kinds': {'A': A[3], 'B': B[3]}, 'islands_kept_by_A': len(A[2]), 'islands_kept_by_B': len(B[2]),
+                   'unrestricted_islands': len(upix), 'shape': [rows, cols], 'depth': depth}
+            try:
+                rcalls, rsrcs, rc = _run_cli(sf_mod, fn, sigma, inner, outer, fileB if use_b else None,
+                                             os.path.join(d, 'out', 'run_%d' % si), extra=['--autoload'] if autoload else [],
+                                             region_first=region_first)
+            except Exception:
+                o.violate('raises', dict(wit, traceback=traceback.format_exc()[-800:]))
+                continue
+            o.n_eval += 1
+            o.count('cli_runs_judged')
+            o.count('cli_scenario_' + name)
+            if rc not in (0, None):
+                o.violate('cli_exit_code', dict(wit, returncode=rc))
+                continue
+            if autoload and use_b and 'mim' in siblings and differ:
+                o.count('cli_autoload_and_region_with_different_sibling_region')
+            nk, nd = compare_catalogues(o, wit, mems[acting], ucalls, usrcs, rcalls, rsrcs, names, prefix='cli_')
+            if nk + nd:
+                distinct.add(hash((data32.tobytes(), name)))
+    finally:
+        shutil.rmtree(d, ignore_errors=True)
+    o.see('cli_crval1_sign', 'negative' if hdr['CRVAL1'] < 0 else 'positive')
+    o.sample = {'shape': [rows, cols], 'depth': depth, 'unrestricted_islands': len(upix), 'kept_by_A': len(A[2]),
+                'kept_by_B': len(B[2]), 'regions_differ': differ, 'scenarios': [CLI_SCENARIOS[i][0] for i in sorted(set(chosen))]}
